@@ -40,6 +40,16 @@ def _label(x):
 
 
 def cases(rng, tier):
+    # result containers of the wrong length (one pub / quasi-distribution too few or too many), for both sampler interfaces and both
+    # call forms: refused with ValueError before anything is read
+    for v in ("v1shots", "v2"):
+        for mode in ("drop", "extra"):
+            for form in ("dict", "single"):
+                labels = ["A", "B"] if form == "dict" else ["A"]
+                yield ("reconstruct", {"labels": labels, "form": form, "nobs": 2, "subobs": [["ZX", "XZ"], ["ZI", "IZ"]][: len(labels)],
+                                       "coeffs": [frac(Fraction(3, 2)), frac(Fraction(-1, 2)), frac(Fraction(1, 4))], "variant": v,
+                                       "seed": 11 + len(mode), "drop": mode == "drop", "extra": mode == "extra", "strkeys": False,
+                                       "rot_results": 0, "rot_obs": 0, "always_oracle": True})
     n = 120 if tier == "quick" else 2500
     for t in range(n):
         nparts = rng.randint(1, 3)
@@ -65,7 +75,7 @@ def cases(rng, tier):
         coeffs = [frac(Fraction(rng.randint(-48, 48), 16)) for _ in range(ncoef)]
         v = rng.choice(["v1shots", "v1shots", "v1free", "v2"])
         payload = {"labels": labels, "form": form, "nobs": nobs, "subobs": subobs, "coeffs": coeffs,
-                   "variant": v, "seed": rng.randrange(1 << 30), "drop": rng.random() < 0.08,
+                   "variant": v, "seed": rng.randrange(1 << 30), "drop": rng.random() < 0.08, "extra": rng.random() < 0.05,
                    "strkeys": rng.random() < 0.25,
                    # the results dict / the observables dict may have been filled in any order of the labels
                    "rot_results": rng.randrange(nparts) if rng.random() < 0.6 else 0,
@@ -157,6 +167,9 @@ def _build(payload):
         if payload.get("drop") and exps:
             exps.pop()
             mexps.pop()
+        if payload.get("extra") and exps:
+            exps.append(exps[-1])
+            mexps.append(mexps[-1])
         if payload["variant"] == "v2":
             results[l] = PrimitiveResult(exps)
         else:
